@@ -99,12 +99,22 @@ def check_container_items_encoded(ctx):
             srcs = value_sources(f, e, node)
             return bool(srcs) and all(k == "param" and p == vp for k, p in srcs)
 
+        def held_exprs(e, f=f):
+            """what a local holds, looking through `a, b = (x, y)`"""
+            out_ = []
+            for k, pl in value_sources(f, e, None):
+                if k == "unpack" and isinstance(pl[0], (ast.Tuple, ast.List)) and pl[1] is not None and pl[1] < len(pl[0].elts):
+                    out_.append(("expr", pl[0].elts[pl[1]]))
+                else:
+                    out_.append((k, pl))
+            return out_
+
         def is_item_field(e, f=f):
             if isinstance(e, ast.Attribute) and e.attr in ("field", "key_field", "value_field", "_use_proxy") and isinstance(e.value, ast.Name) \
                     and e.value.id == f.self_name:
                 return True
             if isinstance(e, ast.Name):       # item_field = self.field
-                srcs = value_sources(f, e, None)
+                srcs = held_exprs(e)
                 return bool(srcs) and all(k == "expr" and isinstance(pl, ast.Attribute) and is_item_field(pl) for k, pl in srcs)
             return False
 
@@ -140,6 +150,9 @@ def check_container_items_encoded(ctx):
                     continue
                 seen.add(id(e))
                 leaves.append(e)
+                if isinstance(e, ast.Name):
+                    # a stored item held in a local first: basic_key = key_field.to_basic(cfg, key); basic[basic_key] = ...
+                    todo += [p for k, p in sp.sources(e, None) if k == "expr" and p is not e]
                 if isinstance(e, ast.Call):
                     for a in e.args:
                         if isinstance(a, ast.Name):
@@ -163,9 +176,9 @@ def check_container_items_encoded(ctx):
                         if isinstance(x, ast.Call) and isinstance(x.func, ast.Attribute) and x.func.attr == which:
                             recv_ = x.func.value
                             if isinstance(recv_, ast.Name):
-                                rs = value_sources(f, recv_, None)
+                                rs = held_exprs(recv_)
                                 if len(rs) == 1 and rs[0][0] == "expr" and isinstance(rs[0][1], ast.Attribute):
-                                    recv_ = rs[0][1]        # item_field = self.field
+                                    recv_ = rs[0][1]        # item_field = self.field;  key_field, value_field = (self.key_field, self.value_field)
                             if isinstance(recv_, ast.Attribute) and recv_.attr == attr and isinstance(recv_.value, ast.Name) and recv_.value.id == f.self_name:
                                 hit = True
                         # the codec applied through a local bound to functools.partial(self.<attr>.<which>, cfg)
@@ -250,9 +263,15 @@ def check(ctx):
                                     filled = x.args
                                 if isinstance(x, ast.Assign) and any(isinstance(t, ast.Subscript) and isinstance(t.value, ast.Name) and t.value.id == nm for t in x.targets):
                                     filled = [x.value] + [t.slice for t in x.targets if isinstance(t, ast.Subscript)]
-                                if filled and any(isinstance(y, ast.Call) and isinstance(y.func, ast.Attribute) and y.func.attr == "to_python"
-                                                  for f in filled for y in ast.walk(f)):
-                                    used = True
+                                if filled:
+                                    # the stored element, directly or held in a local first (val = value_field.to_python(...); acc[key] = val)
+                                    exprs_ = list(filled)
+                                    for f in filled:
+                                        if isinstance(f, ast.Name):
+                                            exprs_ += [p3 for k3, p3 in value_sources(tp, f, None) if k3 == "expr" and isinstance(p3, ast.AST)]
+                                    if any(isinstance(y, ast.Call) and isinstance(y.func, ast.Attribute) and y.func.attr == "to_python"
+                                           for f in exprs_ for y in ast.walk(f)):
+                                        used = True
             ctx.ob("agree.container-codec.used", tp, "%s.to_python returns the decoded elements" % cname, used,
                    "the returned proxy is built from the decoded elements" if used else "decoded elements are computed but not used")
     # configurations in lists: to_tree <-> load_tree
